@@ -108,6 +108,35 @@ theorem emitted_chain_lookup (rw orig : List Token) (h : AllResolvable rw orig) 
     lookup (dedup (chain rw orig)) line col = (lookup rw line col).map (retargetD orig) := by
   rw [lookup_dedup, chain_lookup rw orig h]
 
+/-! ### without the hypothesis: tokens the original map cannot resolve are dropped, nothing else changes -/
+
+/-- the rewrite tokens the original map resolves -/
+def resolvable (orig : List Token) (rw : List Token) : List Token := rw.filter fun t => (retarget orig t).isSome
+
+theorem chain_eq_resolvable (rw orig : List Token) : chain rw orig = chain (resolvable orig rw) orig := by
+  unfold chain resolvable
+  induction rw with
+  | nil => rfl
+  | cons t ts ih =>
+    cases hr : retarget orig t with
+    | none => simp [List.filterMap_cons, List.filter_cons, hr, ih]
+    | some o => simp [List.filterMap_cons, List.filter_cons, hr, ih]
+
+theorem resolvable_all (rw orig : List Token) : AllResolvable (resolvable orig rw) orig := by
+  intro t ht
+  simp only [resolvable, List.mem_filter] at ht
+  exact ht.2
+
+/-- **C10 (composition, every pair of maps).**  For *every* rewrite map and original map: the chained map
+    as the writer emits it answers every lookup like looking the position up among the rewrite tokens the
+    original map resolves, and then in the original map.  (A rewrite token whose source position lies before
+    the first token of the original map has no origin to be re-targeted to and is dropped — the recorded
+    behaviour F19 — so a position inside it resolves like the token before it.) -/
+theorem emitted_chain_lookup_general (rw orig : List Token) (line col : Nat) :
+    lookup (dedup (chain rw orig)) line col = (lookup (resolvable orig rw) line col).map (retargetD orig) := by
+  rw [chain_eq_resolvable]
+  exact emitted_chain_lookup (resolvable orig rw) orig (resolvable_all rw orig) line col
+
 /-- non-vacuity -/
 example : AllResolvable [⟨0, 4, some (0, 2, 1), none⟩] [⟨2, 0, some (0, 10, 3), some 1⟩] := by
   intro t ht
